@@ -12,7 +12,7 @@ def c11(work, tier, seed):
     d2 = design_check("Teardown", "MC_Teardown_legacy.cfg", work, workers=4, timeout=300)
     scripts = []
     for tr in ("ws", "legacy"):
-        causes = ["close-channel", "protocol-error", "unframeable"] + (["fin:ws", "rst:ws"] if tr == "ws" else ["fin:in", "rst:in", "fin:out", "rst:out"])
+        causes = ["close-channel", "protocol-error", "unframeable", "unframeable-huge"] + (["fin:ws", "rst:ws"] if tr == "ws" else ["fin:in", "rst:in", "fin:out", "rst:out"])
         for pi, point in enumerate(POINTS):
             for cause in causes:
                 infl = ["none", "c2b", "b2c", "both"] if point in ("channel", "opened") else ["none"]
